@@ -323,6 +323,16 @@ func roundTrip(c *runner.Ctx, in work.Input, path, encoder string, x []byte, d *
 		sweepRecord(s, in)
 		return
 	}
+	if in.Gen == "seed" && in.Kind != "fuzz" && len(s.n3Types) > 0 && len(s.lost) == 0 {
+		// N3 (surplus after the last syntax element is dropped) is a licence for
+		// mutated inputs whose count/length fields were made smaller. An
+		// unmutated corpus box (testdata, or hand-built from the syntax tables)
+		// has no surplus: bytes dropped from it are syntax the decoder ignores.
+		for _, t := range s.n3Types {
+			c.Violation("trailing-syntax-dropped/"+t, fmt.Sprintf("%s + %s: the unmutated corpus seed %s loses trailing bytes of its %s box on re-encoding (%d bytes in all): they are part of the box syntax, not surplus", path, encoder, in.Name, t, s.explained["N3.bytes_dropped"]), det(y))
+		}
+		return
+	}
 	if len(s.lost) > 0 {
 		seen := map[string]bool{}
 		for _, l := range s.lost {
